@@ -6,13 +6,8 @@ namespace Glm
 variable {R : Type} [CommRing R]
 
 theorem sumE_eval (l : List E) (env : Nat → R) :
-    (sumE l).eval (ringOps R) env = (l.map (fun e => e.eval (ringOps R) env)).sum := by
-  induction l with
-  | nil => simp [sumE, E.eval]
-  | cons a as ih =>
-    cases as with
-    | nil => simp [sumE]
-    | cons b bs => simp only [sumE, E.eval, ringOps_add, ih, List.map_cons, List.sum_cons]
+    (sumE l).eval (ringOps R) env = (l.map (fun e => e.eval (ringOps R) env)).sum :=
+  sumE_eval' ringOps_ringLike l env
 
 theorem Unit.polyAgrees_sound {u : Unit} {n : Nat} {spec : Nat → E}
     (h : u.polyAgrees n spec = true) (j : Nat) (hj : j < n) (env : Nat → R) :
